@@ -45,9 +45,12 @@ def unlinkCalls : List String :=
 
 def callsUnlink (calls : List String) : Bool := calls.any fun c => unlinkCalls.contains c
 
-/-- does `fileLock.Close`, as it is in the source now, unlink the lock file? (computed from the regenerated
-list of calls it makes; `Props.C17.fact_filelock_close` pins the list itself) -/
-def closeUnlinks : Bool := callsUnlink Generated.FileLock.fileLockCloseCalls
+/-- does closing a handle, as it is in the source now, unlink the lock file? Computed from the regenerated
+lists of calls made on the way down: `KeyStore.Close` → `DirectoryBackend.Close` → `fileLock.Close`
+(`Props.C17.fact_filelock_close` pins the lists themselves). -/
+def closeUnlinks : Bool :=
+  callsUnlink Generated.FileLock.fileLockCloseCalls || callsUnlink Generated.FileLock.backendCloseCalls ||
+  callsUnlink Generated.FileLock.keyStoreCloseCalls
 
 /-- one `fileLock` object (= one `DirectoryBackend` = one key-store handle) -/
 structure LHandle where
